@@ -123,6 +123,14 @@ func TestDriver(t *testing.T) {
 		}
 	}
 
+	for i, hp := range handPrograms() {
+		o := s.both("scripted", "scripted-"+hp.name, hp.p, bases[i%len(bases)], true)
+		res.Inc("scripted", 1)
+		if o.MaxSC < 5 {
+			t.Fatalf("hand-assembled program %s loaded %d script contexts at once, 5 expected", hp.name, o.MaxSC)
+		}
+	}
+
 	// (a) behaviours of the model
 	var bs []behaviour
 	if vh.InDir() != "" {
@@ -154,9 +162,14 @@ func TestDriver(t *testing.T) {
 
 	// (c) seeded random multi-script programs
 	nr := vh.EnvInt("VERIF_RANDOM", 200)
+	fills := vh.EnvInt("VERIF_FILLS", 6)
 	for i := 0; i < nr; i++ {
 		heavy := i%3 == 0
-		h := genRandom(s.r, 30+s.r.Intn(120), 3+s.r.Intn(3), 4+s.r.Intn(5), heavy)
+		fill := heavy && fills > 0 && i%2 == 0
+		if fill {
+			fills--
+		}
+		h := genRandom(s.r, 30+s.r.Intn(120), 3+s.r.Intn(3), 4+s.r.Intn(5), heavy, fill)
 		p, err := realize(h, i, vmBackend{}, false, false)
 		if err != nil {
 			res.Inc("random_not_realised", 1)
